@@ -19,7 +19,8 @@ extern const void *g_ver_sig; extern size_t g_ver_siglen; extern const void *g_v
 extern const void *g_sgn_keymat; extern const void *g_sgn_data; extern size_t g_sgn_len; extern int g_sgn_hash, g_sgn_pss, g_sgn_done;
 extern int g_lib_fail; extern unsigned g_ver_calls;
 
-void verif_gnutls_free(void *p) { (void)p; }
+extern unsigned g_rs_freed;	/* ghost (stubs/ghost.c): how often the buffer handed out by the last gnutls_encode_rs_value() was released */
+void verif_gnutls_free(void *p) { if (p != NULL && p == g_rs_buf && g_rs_freed < 100) g_rs_freed++; }
 gnutls_free_function gnutls_free = verif_gnutls_free;
 
 static int dig_bits(int alg)
